@@ -58,12 +58,13 @@ type Case struct {
 	Pkgs      []Pkg    `json:"packages"`
 	Preexist  []string `json:"preexisting,omitempty"` // port 2: output files that exist before the run
 	WantFail  string   `json:"want_fail,omitempty"`   // port 2: "", "force-file-write", "schema"
+	TypeCheck bool     `json:"type_check,omitempty"`  // port 2: additionally type-check the output directories (go vet)
 }
 
 const modPath = "example.com/m"
 
 // every directory of the fixed scratch module that holds a Go package with interfaces A, B, C
-var layout = []string{"pa", "pb", "pc", "pc/s1", "pc/s1/t", "pc/s2", "pd"}
+var layout = []string{"pa", "pb", "pc", "pc/s1", "pc/s1/t", "pc/s1/t/u", "pc/s2", "pc/s2/w", "pd"}
 var ifaceNames = []string{"A", "B", "C"}
 
 var scalarParams = []string{"dir", "filename", "pkgname", "structname", "template", "template-schema", "formatter",
@@ -334,6 +335,22 @@ func (c *Case) pkgChains(path string) [][]node {
 	if !anyRec && own != nil {
 		return chains
 	}
+	if own == nil && len(anc) > 1 && c.certainDiscoverer(anc[0], path) {
+		// A discovered package takes the configuration of its NEAREST recursive listed ancestor
+		// ("sub-packages inherit the config of their nearest recursive ancestor"): whatever that
+		// ancestor sets wins. Only whether the farther ancestors sit between it and the top level
+		// is left open (as it is for the listed ancestor itself).
+		for mask := 0; mask < 1<<(len(anc)-1); mask++ {
+			ch := []node{pkgNode(anc[0])}
+			for i, a := range anc[1:] {
+				if mask&(1<<i) != 0 {
+					ch = append(ch, pkgNode(a))
+				}
+			}
+			chains = append(chains, append(ch, top...))
+		}
+		return chains
+	}
 	// every non-empty order-preserving selection of the listed ancestors
 	for mask := 1; mask < 1<<len(anc); mask++ {
 		ch := append([]node{}, own...)
@@ -345,6 +362,21 @@ func (c *Case) pkgChains(path string) [][]node {
 		chains = append(chains, append(ch, top...))
 	}
 	return chains
+}
+
+// certainDiscoverer: the listed package p writes `recursive: true` itself and excludes the
+// sub-package under none of its admitted resolution chains, so it discovers the sub-package whatever
+// the standing of its own listed ancestors.
+func (c *Case) certainDiscoverer(p *Pkg, sub string) bool {
+	if b, _ := p.Config["recursive"].(bool); !b || p.Null {
+		return false
+	}
+	for _, ch := range c.pkgChains(p.Path) {
+		if excludedBy(resolve(ch), sub) {
+			return false
+		}
+	}
+	return true
 }
 
 // mayRecurse: some admitted chain of the listed package makes `recursive` true.
@@ -381,6 +413,9 @@ func (c *Case) discovered(path string) string {
 			return "must"
 		}
 		return "never"
+	}
+	if c.certainDiscoverer(anc[0], path) {
+		return "must"
 	}
 	for _, a := range anc {
 		if c.mayRecurse(a.Path) {
@@ -509,12 +544,32 @@ func (c *Case) classify() (string, []string) {
 			}
 		}
 	}
+	// nested recursive listed packages with unlisted packages below the inner one
+	for _, dir := range layout {
+		anc := c.listedAncestors(dir)
+		if c.listed(dir) != nil || len(anc) < 2 || !c.certainDiscoverer(anc[0], dir) {
+			continue
+		}
+		mark("nested-recursive:unlisted-package-below-inner-recursive-package")
+		if len(anc) > 2 {
+			mark("nested-recursive:three-listed-levels")
+		}
+		inner, outer := resolve(c.pkgChains(anc[0].Path)[0]), resolve(append([]node{pkgNode(anc[1])}, top...))
+		for _, p := range allJudged {
+			if _, sets := anc[0].Config[p]; sets && norm(inner.V[p]) != norm(outer.V[p]) {
+				mark("nested-recursive:inner-sets-value-differing-from-outer")
+			}
+		}
+	}
 	cl = append(cl, fmt.Sprintf("max-sibling-interfaces=%d", maxIf), fmt.Sprintf("max-configs-entries=%d", maxCfg))
 	if c.WantFail != "" {
 		mark("expected-failure=" + c.WantFail)
 	}
 	if len(c.Preexist) > 0 {
 		mark("preexisting-output")
+	}
+	if c.TypeCheck {
+		mark("type-check-sample")
 	}
 	if nontrivial && len(c.Pkgs) >= 2 {
 		return vh.Hash(vh.JSON(c)), cl
